@@ -17,9 +17,11 @@ pub struct GenCfg {
     /// fixed version (major) or None = random 45..=67
     pub major: Option<u16>,
     pub frames: bool,
+    /// allow CONSTANT_Long / CONSTANT_Double pool entries
+    pub two_slot_constants: bool,
 }
 impl Default for GenCfg {
-    fn default() -> Self { GenCfg { max_fields: 5, max_methods: 6, max_insns: 40, class_pool: vec![], param_annotations: true, unknown_attrs: true, modules: true, major: None, frames: true } }
+    fn default() -> Self { GenCfg { max_fields: 5, max_methods: 6, max_insns: 40, class_pool: vec![], param_annotations: true, unknown_attrs: true, modules: true, major: None, frames: true, two_slot_constants: true } }
 }
 
 pub struct G<'a> { pub rng: &'a mut Rng, pub cfg: &'a GenCfg, pub major: u16 }
@@ -102,6 +104,7 @@ impl<'a> G<'a> {
         match self.rng.below(max) {
             0 => Const::Int(self.int()),
             1 => Const::Float(*self.rng.pick(&[0, 0x3f800000, 0x7fc00000, 0x7fc00001, 0xff800000, 0x80000000, 0x00000001, 0x4048f5c3])),
+            2 | 3 if !self.cfg.two_slot_constants => Const::Int(self.int()),
             2 => Const::Long(*self.rng.pick(&[0, 1, -1, i64::MAX, i64::MIN, 0x1_0000_0000, 42])),
             3 => Const::Double(*self.rng.pick(&[0, 0x3ff0000000000000, 0x7ff8000000000000, 0x7ff8000000000001, 0xfff0000000000000, 0x8000000000000000, 1])),
             4 => Const::Str(self.any_string()),
@@ -127,6 +130,7 @@ impl<'a> G<'a> {
             2 => ElementValue::IntLike(b'I', self.int()),
             3 => ElementValue::IntLike(b'S', self.rng.range(-32768, 32767) as i32),
             4 => ElementValue::IntLike(b'Z', self.rng.below(2) as i32),
+            5 if !self.cfg.two_slot_constants => ElementValue::Float(self.rng.next_u32()),
             5 => match self.rng.below(3) { 0 => ElementValue::Double(self.rng.next_u64()), 1 => ElementValue::Float(self.rng.next_u32()), _ => ElementValue::Long(self.rng.next_u64() as i64) },
             6 => ElementValue::Str(self.any_string()),
             7 => { let mut t = vec![b'L']; t.extend(self.class_name().0); t.push(b';'); ElementValue::Enum(JS(t), self.js_ident()) }
@@ -166,7 +170,7 @@ impl<'a> G<'a> {
     pub fn field(&mut self) -> Field {
         let mut f = Field { access: self.flags(&[0x0001, 0x0002, 0x0004, 0x0008, 0x0010, 0x0040, 0x0080, 0x1000, 0x4000]), name: self.js_ident(), desc: self.field_desc(), ..Default::default() };
         f.deprecated = self.rng.chance(1, 10); f.synthetic = self.rng.chance(1, 10);
-        if self.rng.chance(1, 4) { f.constant_value = Some(match self.rng.below(5) { 0 => Const::Int(self.int()), 1 => Const::Float(self.rng.next_u32()), 2 => Const::Long(self.rng.next_u64() as i64), 3 => Const::Double(self.rng.next_u64()), _ => Const::Str(self.any_string()) }); }
+        if self.rng.chance(1, 4) { f.constant_value = Some(match self.rng.below(5) { 0 => Const::Int(self.int()), 1 => Const::Float(self.rng.next_u32()), 2 | 3 if !self.cfg.two_slot_constants => Const::Int(7), 2 => Const::Long(self.rng.next_u64() as i64), 3 => Const::Double(self.rng.next_u64()), _ => Const::Str(self.any_string()) }); }
         f.signature = self.signature();
         (f.vis_annotations, f.invis_annotations) = self.annotations();
         (f.vis_type_annotations, f.invis_type_annotations) = self.type_annotations(|_| Target::Empty(0x13));
